@@ -120,6 +120,10 @@ def step (s : S) (line : String) : S × String :=
     match argNat? ws "w" with
     | some w => ({ s with r := s.r.pokeRaw (UInt32.ofNat w) }, "ok")
     | none => (s, "bad-op")
+  | "pokeraw64" :: _ =>
+    match argNat? ws "w" with
+    | some w => ({ s with r64 := s.r64.pokeRaw (UInt64.ofNat w) }, "ok")
+    | none => (s, "bad-op")
   | "dchoosecdf" :: _ =>
     let p := parseBitsList ((arg? ws "p").getD "")
     let (x, r) := s.r.randomNum
